@@ -45,7 +45,10 @@ func check(args []string) int {
 	type cfg struct{ arch, cg string }
 	cfgs := []cfg{{"amd64", "vta"}}
 	if *tier == "thorough" {
-		cfgs = append(cfgs, cfg{"386", "vta"}, cfg{"amd64", "cha"})
+		// a second build configuration (32-bit int, any build-constrained file). A CHA-only call graph was tried as a
+		// third configuration and dropped: it makes the per-call type *sequence look invocable through the Parser
+		// interface by anybody, which turns its scratch-slice writes into false alarms (DESIGN §3.2).
+		cfgs = append(cfgs, cfg{"386", "vta"})
 	}
 	var results []*report.Result
 	for _, cf := range cfgs {
